@@ -12,6 +12,7 @@ import (
 	"fmt"
 	"net"
 	"slices"
+	"strings"
 	"time"
 
 	"github.com/saucelabs/forwarder/conntrack"
@@ -30,7 +31,7 @@ func DialRedirectFromHostPortPairs(subs []HostPortPair) DialRedirectFunc {
 		}
 
 		for _, s := range subs {
-			if (s.Src.Host == "" || s.Src.Host == host) && (s.Src.Port == "" || s.Src.Port == port) { //nolint:gocritic // nestingReduce: invert if cond, replace body with `continue`, move old body after the statement
+			if (s.Src.Host == "" || strings.EqualFold(s.Src.Host, host)) && (s.Src.Port == "" || s.Src.Port == port) { //nolint:gocritic // nestingReduce: invert if cond, replace body with `continue`, move old body after the statement
 				h := s.Dst.Host
 				if h == "" {
 					h = host
